@@ -1,12 +1,15 @@
 SPECIFICATION Spec
 CONSTANTS Tunings = {"default", "a1", "a1k3", "a05", "a01", "a1k0"} MaxGroup = 4 PermSet = "all"
-CONSTANT KindSets <- KindSetsThorough
+CONSTANT KindSets <- KindSetsSim
 CONSTANT Placements <- PlacementsThorough
 CONSTANT SubPatterns <- SubsThorough
 CONSTANT TurnVals <- TurnsThorough
+CONSTANT RangePatterns <- RangeAll
+CONSTANTS MaxHist = 2 ContinueFrom = "any"
 INVARIANT PosteriorIsBasePosterior
 INVARIANT InnovationInRange
 INVARIANT InnovationIsAngleResidual
 INVARIANT StackIsPermutation
 INVARIANT Emit
 PROPERTY GroupKeepsPosterior
+PROPERTY PosteriorIgnoresHistory
